@@ -498,6 +498,27 @@ func TestVerifC03(t *testing.T) {
 						ok, note = false, fmt.Sprintf("event type %v, %s: the rejected entry was handed to subscribers", typ, name)
 					}
 				}
+				// the history path: listings (ListEvents feeds GroupMetadataList and the re-registration of
+				// chain keys) must not hand a rejected entry out either, in either direction
+				for _, lst := range []struct {
+					who string
+					st  *MetadataStore
+				}{{"writer", ms}, {"replica", mrep}} {
+					for _, rev := range []bool{false, true} {
+						ch, err := lst.st.ListEvents(ctx, nil, nil, rev)
+						if err != nil {
+							t.Fatal(err)
+						}
+						for ev := range ch {
+							if ev == nil || ev.EventContext == nil {
+								continue
+							}
+							if name, bad := rejectedIDs[string(ev.EventContext.Id)]; bad && ok {
+								ok, note = false, fmt.Sprintf("event type %v, %s: the rejected entry is handed out by ListEvents of the %s", typ, name, lst.who)
+							}
+						}
+					}
+				}
 				if ok && (before != after || beforeR != afterR) {
 					ok, note = false, fmt.Sprintf("event type %v: appending %d rejected envelopes changed the indexed state: %s", typ, len(rejectedIDs), c04firstDiff(before, after)+" / "+c04firstDiff(beforeR, afterR))
 				}
